@@ -67,12 +67,12 @@ def make_values(rng, k, kind=None):
 @contextlib.contextmanager
 def quiet():
     """swallow prints of the library (grow prints progress)"""
-    old = sys.stdout
-    sys.stdout = io.StringIO()
+    old, olde = sys.stdout, sys.stderr
+    sys.stdout = io.StringIO(); sys.stderr = io.StringIO()
     try:
         yield
     finally:
-        sys.stdout = old
+        sys.stdout, sys.stderr = old, olde
 
 
 def kwkey(kw):
